@@ -195,6 +195,23 @@ def gen_validate_lits(parse) -> str:
     out.append(",\n".join(rows))
     out.append("]")
     out.append("")
+    out.append("/-- (class, exception classes its validation methods can raise — sorted, without repeats).")
+    out.append("Deliberately coarser than `raiseSites`: splitting, merging or moving a check inside a class")
+    out.append("does not change it; dropping the last raise of a kind, or adding a new kind, does. -/")
+    out.append("def raiseKinds : List (String × List String) := [")
+    rows = []
+    for rel, cls in CLASSES:
+        kinds = set()
+        for fn in methods(nodes[cls]):
+            if fn.name.startswith("_validate") or fn.name in ("_read_input_symbol_subset", "validate"):
+                if cls == "Automaton" and fn.name == "validate":
+                    continue          # the abstract method (raises NotImplementedError)
+                kinds.update(raises_of(fn))
+        if kinds:
+            rows.append(f"  ({lean_str(cls)}, {lean_list(sorted(kinds))})")
+    out.append(",\n".join(rows))
+    out.append("]")
+    out.append("")
     out.append("/-- (class, methods called on `self` / `super()` by `validate`, in source order). -/")
     out.append("def validateCalls : List (String × List String) := [")
     rows = []
